@@ -1,7 +1,9 @@
 --------------------------- MODULE TraceHlsSession ---------------------------
 (* Trace validation for C43. One ndjson record per walk replayed on the REAL hls.Server
    (real stream.Stream behind it; the path manager's decisions come from the real auth.Manager):
-     walk, cdnConf, events: << e >> with
+     walk, trusted (hlsTrustedProxies holds the peer / is empty), cdnConf, events: << e >> with
+       (ip is the client address of the statement: the forwarded address when the peer is the trusted
+        proxy, the TCP peer otherwise; fwd / hdr describe a forged forwarding header and do not count)
        [op |-> "open",    path, cred, ip, bearer ("" or the Bearer form sent instead of credentials),
                           res ("ok" | "refused" | "notfound" | "other"), sid (0: no session secret came back)]
        [op |-> "req",     kind, path, sid, place, ip, auth, status, served]
